@@ -18,7 +18,7 @@ SHIM = C.VERIF / "harness" / "fi_shim.so"
 
 def run_gen(spec: dict, trace_path: Path, *, kill_at: int | None = None, shim_kill: int | None = None,
             shim_log: Path | None = None, watch: str | None = None, timeout: int = 900,
-            n_devices: int = 1, maxarr: int = 0):
+            n_devices: int = 1, maxarr: int = 0, kill_after: float | None = None):
     """One OS process generation.  Returns (returncode, stderr tail)."""
     spec_path = trace_path.with_suffix(".spec.json")
     spec_path.write_text(json.dumps(spec))
@@ -30,10 +30,69 @@ def run_gen(spec: dict, trace_path: Path, *, kill_at: int | None = None, shim_ki
         extra["FI_WATCH"] = watch or ""
         extra["FI_LOG"] = str(shim_log) if shim_log else ""
         extra["FI_KILL_AT"] = str(shim_kill if shim_kill is not None else 0)
-    p = subprocess.run([C.PY, "-m", "harness.workers.ckpt_driver", str(spec_path)],
-                       env=C.child_env(n_devices, extra), capture_output=True, text=True,
+    cmd = [C.PY, "-m", "harness.workers.ckpt_driver", str(spec_path)]
+    if kill_after is not None:
+        # wall-clock kill: SIGKILL once the first checkpoint activity is visible plus a seeded delay
+        import signal
+        import time
+        proc = subprocess.Popen(cmd, env=C.child_env(n_devices, extra), stdout=subprocess.DEVNULL,
+                                stderr=subprocess.PIPE, text=True, cwd=str(C.VERIF))
+        t0 = time.time()
+        while proc.poll() is None and time.time() - t0 < timeout:
+            started = trace_path.exists() and b"save_call" in trace_path.read_bytes()
+            if started:
+                time.sleep(kill_after)
+                if proc.poll() is None:
+                    proc.send_signal(signal.SIGKILL)
+                break
+            time.sleep(0.02)
+        try:
+            _, err = proc.communicate(timeout=timeout)
+        except subprocess.TimeoutExpired:
+            proc.kill()
+            _, err = proc.communicate()
+        return proc.returncode, (err or "")[-1500:]
+    p = subprocess.run(cmd, env=C.child_env(n_devices, extra), capture_output=True, text=True,
                        timeout=timeout, cwd=str(C.VERIF))
     return p.returncode, p.stderr[-1500:]
+
+
+def parse_shim(path: Path, root: str):
+    """Project the shim log to the events of OrbaxEnvTrace.tla."""
+    out = []
+    for line in path.read_text().splitlines():
+        parts = line.split(" ")
+        if len(parts) < 4:
+            continue
+        op, a, b = parts[1], parts[2], parts[3]
+
+        def classify(pth):
+            if not pth.startswith(root):
+                return ("root", 0, False)
+            rel = pth[len(root):].strip("/")
+            if not rel:
+                return ("root", 0, True)
+            first = rel.split("/")[0]
+            top = "/" not in rel
+            m = re.match(r"^(\d+)\.orbax-checkpoint-tmp", first)
+            if m:
+                return ("tmp", int(m.group(1)), top)
+            if first.isdigit():
+                return ("final", int(first), top)
+            return ("root", 0, top)
+        ka, sa, topa = classify(a)
+        if op == "rename" and b != "-":
+            kb, sb, topb = classify(b)
+            if ka == "tmp" and topa and kb == "final" and topb and sa == sb:
+                out.append({"k": "commit", "step": sa, "op": op})
+                continue
+        if ka == "tmp":
+            out.append({"k": "mkdir_tmp" if (op == "mkdir" and topa) else "tmp_op", "step": sa, "op": op})
+        elif ka == "final":
+            out.append({"k": "final_op", "step": sa, "op": op})
+        else:
+            out.append({"k": "other", "step": 0, "op": op})
+    return out
 
 
 def read_events(path: Path):
@@ -333,15 +392,18 @@ def run_scenario(sc: dict, workdir: Path):
         tr = base / f"gen{gi}.ndjson"
         spec = {"problem": sc["problem"], "kind": sc["kind"], "solver_kw": kw, "ops": ops}
         rc, err = run_gen(spec, tr, kill_at=g.get("kill_at"), shim_kill=g.get("shim_kill"),
-                          shim_log=(base / f"gen{gi}.shim") if g.get("shim_kill") is not None or g.get("shim_log") else None,
-                          watch=A, n_devices=g.get("n_devices", 1), maxarr=100000 if sc.get("rtol") else 0)
+                          shim_log=(base / f"gen{gi}.shim") if g.get("shim_kill") is not None or g.get("shim_log") or sc.get("shim_log") else None,
+                          watch=A, n_devices=g.get("n_devices", 1), maxarr=100000 if sc.get("rtol") else 0,
+                          kill_after=g.get("kill_after"))
         events = read_events(tr)
         killed = rc == -9
         if rc not in (0, -9):
             raise C.MachineryError(f"scenario {sc['name']} generation {gi}: driver exit {rc}: {err}")
         if not killed and (not events or events[-1]["event"] != "x_exit"):
             raise C.MachineryError(f"scenario {sc['name']} generation {gi}: trace incomplete: {err}")
-        gens_out.append({"events": events, "killed": killed, "ops": ops})
+        shim_path = base / f"gen{gi}.shim"
+        gens_out.append({"events": events, "killed": killed, "ops": ops,
+                         "fs_ops": parse_shim(shim_path, A) if shim_path.exists() else None})
         if g.get("check_unchanged_A"):
             # tree of the original directory must be byte-identical to what it was before this generation
             for ev in events:
